@@ -562,6 +562,14 @@ var encValues = []struct {
 	{"strings", func() any { return []string{"a", "b\n", "é"} }},
 	{"raw", func() any { return json.RawMessage(`{"already":"json"}`) }},
 	{"string", func() any { return strings.Repeat("s", 100) }},
+	{"big string (larger than a fresh pooled buffer)", func() any { return strings.Repeat("B", 5000) }},
+	{"big bytes", func() any { return struct{ D []byte }{bytes.Repeat([]byte{7}, 6000)} }},
+	{"map-raw", func() any {
+		return map[string]json.RawMessage{"b": json.RawMessage(`{"x":1}`), "a": json.RawMessage(`[1,2]`), "c": json.RawMessage(`"s"`)}
+	}},
+	{"map-raw in map-any", func() any {
+		return map[string]any{"outer": map[string]json.RawMessage{"k": json.RawMessage("1")}, "m": map[string]any{"n": map[string]string{"s": "t"}}}
+	}},
 }
 
 func encodeFamily(c *explore.Ctx) {
@@ -646,6 +654,9 @@ func encodeFamily(c *explore.Ctx) {
 			at = now
 		}
 	}
+	for _, v := range hook.TakeViolations() {
+		c.Fail(v[0]+":"+site, "%s during %s(%s) followed by %s", v[1], site, ev.name, done)
+	}
 	// the same call made again after other calls gives the same bytes (key fragments built once per type)
 	if op == 0 {
 		b2, err := json.Marshal(ev.mk())
@@ -676,7 +687,7 @@ func Spec() *explore.Spec {
 			{Name: "parse", ShardDepth: 3, Body: parseFamily, Doc: "Parse/Unmarshal of 7 target kinds x documents (4 string classes, exact / upper-case keys incl. 63/64/65-byte keys) x all 8 subsets of the DontCopy flags (+Unmarshal) x UseNumber x every sequence of <= 2 (thorough 3) later calls from a menu of 7 (overwrite the input, Marshal, Encoder, Unmarshal, Decoder, Tokenizer on other data)"},
 			{Name: "decoder", ShardDepth: 3, Body: decoderFamily, Doc: "Decoder.Decode of the first value of a stream delivered so that the tail is compacted over it / the buffer is reallocated / bytes arrive one at a time / all at once, followed by the next two Decode calls and every sequence of later calls"},
 			{Name: "tokenizer", ShardDepth: 2, Body: tokenizerFamily, Doc: "Tokenizer.String results (slices of the input, or fresh slices for escaped strings) x every sequence of later calls"},
-			{Name: "encode", ShardDepth: 2, Body: encodeFamily, Doc: "Marshal / Encoder.Encode (plain writer; writer that calls the library before consuming its argument, with and without SetIndent) / Append / MarshalIndent of 8 value kinds, with and without a used buffer in the pool, x every sequence of <= 2 (3) later calls incl. GC; Marshal repeated at the end gives the same bytes"},
+			{Name: "encode", ShardDepth: 2, Body: encodeFamily, Doc: "Marshal / Encoder.Encode (plain writer; writer that calls the library before consuming its argument, with and without SetIndent) / Append / MarshalIndent of 12 value kinds (incl. outputs larger than a fresh pooled buffer and sorted map[string]RawMessage), with and without a used buffer in the pool, x every sequence of <= 2 (3) later calls incl. GC; Marshal repeated at the end gives the same bytes"},
 		},
 		Rule: "every history op;post* within the bounds; distinct non-trivial = distinct (operation, document/value, flags)",
 		Assumptions: []string{
